@@ -2,11 +2,14 @@ package c03
 
 import (
 	"fmt"
+	"math/big"
 	"reflect"
+	"strconv"
 	"strings"
 	"testing"
 
 	"github.com/ajitpratap0/GoSQLX/pkg/gosqlx"
+	"github.com/ajitpratap0/GoSQLX/pkg/sql/ast"
 	"pgregory.net/rapid"
 	"verif/gen/sqlgen"
 	"verif/internal/astdump"
@@ -50,6 +53,13 @@ var forms = []struct{ Name, Tmpl, Type string }{
 	{"create_unique_index", "CREATE UNIQUE INDEX ix_1 ON {T} ( a , b )", "CreateIndexStatement"},
 	{"refresh_materialized_view", "REFRESH MATERIALIZED VIEW {T}", "RefreshMaterializedViewStatement"},
 	{"json_operators", "SELECT a -> 'k' , a ->> 'k' , a #> 'p' , a #>> 'p' , a #- 'p' FROM {T} WHERE a @> ( {E} ) AND a <@ b AND a ? 'k' AND a ?| b AND a ?& b", "SelectStatement"},
+	{"returning_alias", "INSERT INTO {T} ( a ) VALUES ( 1 ) RETURNING id , ( {E} ) AS amount_with_tax", "InsertStatement"}, // docs/TROUBLESHOOTING.md example
+	{"limit_large_value", "SELECT a FROM {T} WHERE ( {B} ) LIMIT 123456789012 OFFSET 4294967296", "SelectStatement"},
+	// listed by the documents as supported and rejected by the parser (known findings)
+	{"derived_table_set_operation", "SELECT * FROM ( {S} UNION {S} ) d", "SelectStatement"},     // Table subqueries - Full
+	{"update_from", "UPDATE {T} SET a = ( {E} ) FROM t2 WHERE ( {B} )", "UpdateStatement"},      // UpdateStatement.From; Multi-table UPDATE - Full
+	{"delete_using", "DELETE FROM {T} USING t2 WHERE ( {B} )", "DeleteStatement"},               // API_REFERENCE: Using []TableReference
+	{"update_target_alias", "UPDATE {T} AS x SET a = ( {E} ) WHERE ( {B} )", "UpdateStatement"}, // UpdateStatement.Alias
 	// listed by the compatibility document as "Full" and rejected by the parser (known findings)
 	{"is_true", "SELECT a FROM {T} WHERE ( {E} ) IS TRUE", "SelectStatement"},
 	{"is_not_false", "SELECT a FROM {T} WHERE ( {E} ) IS NOT FALSE", "SelectStatement"},
@@ -156,9 +166,124 @@ func genDocumentedForms(rt *rapid.T) FormCase {
 }
 
 func TestDocumentedForms(t *testing.T) {
-	hx.Rule("documented_forms", "statement shapes docs/SQL_COMPATIBILITY.md lists with full parser support (39 templates) with generated value / condition / query / table-name operands in their holes; gosqlx.Parse must accept, return one statement of the expected type, and the tree must contain the sub-tree of every generated operand; non-trivial = at least one non-leaf operand; distinct = template + size class")
+	hx.Rule("documented_forms", "statement shapes docs/SQL_COMPATIBILITY.md lists with full parser support (45 templates) with generated value / condition / query / table-name operands in their holes; gosqlx.Parse must accept, return one statement of the expected type, and the tree must contain the sub-tree of every generated operand; non-trivial = at least one non-leaf operand; distinct = template + size class")
 	formCheck.Rapid(t, hx.N(40000, 400000), genDocumentedForms)
 }
 
 // FuzzDocumentedForms: coverage-guided search over the same generator (thorough tier).
 func FuzzDocumentedForms(f *testing.F) { formCheck.Fuzz(f, genDocumentedForms) }
+
+// ---------------------------------------------------------------- row-count literals
+
+// LimitCase: a SELECT whose LIMIT / OFFSET / FETCH counts are written in a drawn numeric spelling.
+type LimitCase struct {
+	SQL    string `json:"sql"`
+	Limit  string `json:"limit"` // the literals as written ("" = clause absent)
+	Offset string `json:"offset"`
+	Fetch  string `json:"fetch"`
+}
+
+// plainInt: decimal digits only and within the int64 range: such a count must be accepted
+func plainInt(s string) (int64, bool) {
+	if s == "" {
+		return 0, false
+	}
+	for _, r := range s {
+		if r < '0' || r > '9' {
+			return 0, false
+		}
+	}
+	v, err := strconv.ParseInt(s, 10, 64)
+	return v, err == nil
+}
+
+func sameNumber(written string, got int64) bool {
+	w, _, err := big.ParseFloat(written, 10, 200, big.ToNearestEven)
+	if err != nil {
+		return false
+	}
+	return w.Cmp(new(big.Float).SetInt64(got)) == 0
+}
+
+func oracleLimit(c LimitCase) error {
+	tree, err := gosqlx.Parse(c.SQL)
+	if err != nil {
+		for _, w := range []string{c.Limit, c.Offset, c.Fetch} {
+			if _, ok := plainInt(w); !ok && w != "" {
+				return nil // a count that is not a plain integer may be rejected
+			}
+		}
+		return fmt.Errorf("a SELECT with plain integer row counts is rejected: %v", firstLine(err))
+	}
+	sel, ok := tree.Statements[0].(*ast.SelectStatement)
+	if !ok || len(tree.Statements) != 1 {
+		return fmt.Errorf("parsed into %d statements / %T", len(tree.Statements), tree.Statements[0])
+	}
+	check := func(name, written string, got *int64) error {
+		if written == "" {
+			return nil
+		}
+		if got == nil {
+			return fmt.Errorf("%s %s is written but the tree has no %s", name, written, name)
+		}
+		if !sameNumber(written, *got) {
+			return fmt.Errorf("%s is written %s but the tree holds %d", name, written, *got)
+		}
+		return nil
+	}
+	conv := func(p *int) *int64 {
+		if p == nil {
+			return nil
+		}
+		v := int64(*p)
+		return &v
+	}
+	if err := check("LIMIT", c.Limit, conv(sel.Limit)); err != nil {
+		return err
+	}
+	if err := check("OFFSET", c.Offset, conv(sel.Offset)); err != nil {
+		return err
+	}
+	var fv *int64
+	if sel.Fetch != nil {
+		fv = sel.Fetch.FetchValue
+	}
+	return check("FETCH", c.Fetch, fv)
+}
+
+var limitCheck = hx.NewCheck("row_count_literals", oracleLimit)
+
+func genRowCountLiterals(rt *rapid.T) LimitCase {
+	num := func(label string) string {
+		return rapid.SampledFrom([]string{"0", "1", "7", "100", "2147483648", "123456789012", "9223372036854775807", "9223372036854775808", "18446744073709551615",
+			"1e3", "2.5", "1.0", "2.7", "1E2", "007", "10.5e1"}).Draw(rt, label)
+	}
+	c := LimitCase{}
+	sql := "SELECT a FROM t1 ORDER BY a"
+	switch rapid.IntRange(0, 2).Draw(rt, "shape") {
+	case 0:
+		c.Limit = num("limit")
+		sql += " LIMIT " + c.Limit
+		if rapid.Bool().Draw(rt, "withoffset") {
+			c.Offset = num("offset")
+			sql += " OFFSET " + c.Offset
+		}
+	case 1:
+		c.Offset = num("offset")
+		c.Fetch = num("fetch")
+		sql += " OFFSET " + c.Offset + " ROWS FETCH NEXT " + c.Fetch + " ROWS ONLY"
+	default:
+		c.Fetch = num("fetch")
+		sql += " FETCH FIRST " + c.Fetch + " ROWS ONLY"
+	}
+	c.SQL = sql
+	_, plain := plainInt(c.Limit + c.Offset + c.Fetch)
+	hx.Case("row_count_literals", !plain, sql, map[bool]string{true: "plain_integers", false: "other_numeric_spelling"}[plain])
+	hx.Sample("row_count_literals", sql)
+	return c
+}
+
+func TestRowCountLiterals(t *testing.T) {
+	hx.Rule("row_count_literals", "SELECT with LIMIT / OFFSET / FETCH counts in drawn numeric spellings (plain integers up to and beyond the int64 range, decimals, exponents, leading zeros); plain integers within int64 must be accepted; whenever the statement is accepted the counts in the tree must equal the written numbers exactly; non-trivial = some count is not a plain integer; distinct = statement text")
+	limitCheck.Rapid(t, hx.N(4000, 20000), genRowCountLiterals)
+}
